@@ -258,6 +258,36 @@ theorem handleEnded_dinv (now : Rat) (n : Nat) (k : K) (h : DInv now k) : DInv n
 
 /-! ### the maestro loop -/
 
+theorem ext_slice (now : Rat) (a : Nat) (fuel : Nat) (k : K) (evs : List Ev) : Ext now k (k.slice a fuel evs).1 := by
+  refine slice_ind a (fun k' => Ext now k k') (fun k' => Ext now k k') ?_ ?_ ?_ ?_ (fun _ h => h) fuel k evs
+    (Ext.refl now k)
+  · intro k' f h hf
+    refine h.trans (Shr.ext now (shr_setActor _ _ _ ?_))
+    cases hf <;> fr_side
+  · intro k' r b h hr _
+    refine h.trans ⟨fun _ h => Or.inl h, fun _ h => Or.inl h, fun im h => Or.inl ⟨im, h, rfl, rfl⟩, ?_⟩
+    intro c
+    unfold K.issue
+    rw [actor_setActor]; split
+    · exact Or.inr (Or.inr ⟨r, rfl, hr⟩)
+    · exact Or.inl rfl
+  · intro k' s h
+    exact h.trans (Shr.ext now (shr_of _ _ (List.Sublist.refl _) (List.Sublist.refl _) rfl rfl rfl))
+  · intro k' h
+    exact h.trans (Shr.ext now (shr_die _ _ _))
+
+theorem ext_runAll (now : Rat) (l : List Nat) (k : K) (evs : List Ev) : Ext now k (runAll k l evs).1 := by
+  induction l generalizing k evs with
+  | nil => exact Ext.refl now k
+  | cons a rest ih =>
+    unfold runAll
+    simp only []
+    split
+    · split
+      · exact (Shr.ext now (shr_die k a true)).trans (ih _ _)
+      · exact ih _ _
+    · exact (ext_slice now a _ k []).trans (ih _ _)
+
 theorem handlePending_dinv (now : Rat) (h0 : 0 ≤ now) (l : List Nat) (k : K) (h : DInv now k) :
     DInv now (handlePending now k l) := by
   induction l generalizing k with
@@ -288,8 +318,8 @@ theorem subround_sinv (s : St) (h : SInv s) : SInv (subround s) := by
   simp only []
   refine ⟨h.now0, ?_, h.fired⟩
   refine handleEnded_dinv _ _ _ (handlePending_dinv _ h.now0 _ _ ?_)
-  refine DInv.shr ?_ (shr_runAll _ _ _)
-  exact h.d.shr (shr_of _ _ (List.Sublist.refl _) (List.Sublist.refl _) rfl rfl rfl)
+  refine DInv.ext ?_ (ext_runAll _ _ _ _)
+  exact h.d.shr (shr_clearRun _)
 
 def HeapOk (now : Rat) (e : HeapE) : Prop := now ≤ e.date ∧ (e.lat = true → 0 ≤ e.rem)
 
@@ -333,7 +363,8 @@ theorem popWindow_dinv (now : Rat) (n : Nat) (s : St) (re : List HeapE) (hn : s.
         · apply ih
           · simpa only [pick_now] using hn
           · refine h.shr ?_
-            refine ⟨List.Sublist.refl _, removeNth_sublist _ _, rfl, ?_, rfl, fun _ => Or.inl rfl, fun _ h => h, fun _ h => h⟩
+            refine ⟨List.Sublist.refl _, removeNth_sublist _ _, rfl, ?_, rfl, fun _ => Or.inl rfl, fun _ h => h, fun _ h => h,
+              fun _ h => h, fun _ h => Or.inl h, fun _ h => h⟩
             simp only [K.setImpl]
             rw [map_upd_inv]
             intro _; rfl
